@@ -1,0 +1,33 @@
+// Copyright 2022-2026 Sauce Labs Inc., all rights reserved.
+//
+// This Source Code Form is subject to the terms of the Mozilla Public
+// License, v. 2.0. If a copy of the MPL was not distributed with this
+// file, You can obtain one at https://mozilla.org/MPL/2.0/.
+
+//go:build verif
+
+package forwarder
+
+import (
+	"context"
+	"net"
+	"net/http"
+	"net/url"
+)
+
+// Verification hooks for property C05 (routing).  Add-only, compiled with -tags verif only.
+
+// VerifC05ProxyURL returns the proxy function handed to martian (hp.proxy.ProxyURL), nil if none.
+func (hp *HTTPProxy) VerifC05ProxyURL() func(*http.Request) (*url.URL, error) {
+	return hp.proxy.ProxyURL
+}
+
+// VerifC05IsLocalhost exposes the localhost classifier used by the localhost modes.
+func (hp *HTTPProxy) VerifC05IsLocalhost(host string) bool {
+	return hp.isLocalhost(host)
+}
+
+// VerifC05SetDial replaces the function the Dialer uses to open a socket (after the redirect was applied).
+func (d *Dialer) VerifC05SetDial(f func(ctx context.Context, network, address string) (net.Conn, error)) {
+	d.testingDialContext = f
+}
